@@ -45,6 +45,8 @@ def _casts(t):
         return _casts(t.args[1]) + _casts(t.args[2])
     if t.op == "call" and t.args[0] == ".astype":
         return [t.args[2]] + _casts(t.args[1]) if len(t.args) > 2 else _casts(t.args[1])
+    if t.op == "call" and t.args[0] == ".view" and len(t.args) > 2:
+        return [call("reinterpret", t.args[2])] + _casts(t.args[1])  # .view(dtype): the bytes re-read as another type
     if t.op == "call" and t.args[0] in (".transpose", ".copy", "numpy.transpose", "numpy.ascontiguousarray", "numpy.asarray", "numpy.array", ".view",
                                          ".swapaxes", "numpy.swapaxes", "numpy.moveaxis"):
         return _casts(t.args[1])
@@ -64,6 +66,11 @@ def o111(ctx):
             ctx.count(1, {"read": f".{ext}", "transpose": tr, "library": libs, "permutations": ps})
             if libs != [FAMILY[ext]]:
                 ctx.finding(RD, f"dispatch of .{ext}", f"a .{ext} file must be read with {FAMILY[ext]} (found {libs})", fn, m)
+            rc_ = _casts(t)
+            ctx.count(1)
+            if rc_:
+                ctx.finding(RD, f"type handling for .{ext}", f"the voxels must be returned with the values and type the file holds (data_type only on request); "
+                            f"the data are converted / re-interpreted as {tm.show(rc_[0])[:60]}", fn, m)
             want = [(2, 1, 0)] if tr else []
             if ps != want:
                 ctx.finding(RD, f"axis handling for .{ext}, transpose={tr}", f"reading with transpose={tr} must apply "
@@ -82,6 +89,12 @@ def o111(ctx):
             ctx.count(1, {"write": f".{ext}", "transpose": tr, "library": ev.name})
             if ev.name.split(".")[0] != FAMILY[ext]:
                 ctx.finding(WR, ev.node, f"a .{ext} file must be written with {FAMILY[ext]}", ev.node, mw)
+            nm_ = ev.kwargs.get("name") or ev.arg(0)
+            ctx.count(1)
+            if nm_ is None or not (is_pyconst(nm_) and pyval(nm_) == f"out/volume_b.{ext}"):
+                ctx.finding(WR, ev.node, "the library writer must be given the caller's file name itself: its overwrite check (refuse to replace an "
+                            f"existing file unless asked) then applies to that file; it is given {tm.show(to_term(nm_))[:60] if nm_ is not None else None}",
+                            ev.node, mw)
             d = ev.kwargs.get("data") or ev.arg(1)
             t = to_term(d)
             ps = perms_in(t)
